@@ -156,6 +156,10 @@ func asyncCloseConcurrent(t *tape.Tape, cfg sim.Config) (res sim.Result) {
 		res.Fail("client-panic", "%s", s.DeadlockInfo)
 		return
 	}
+	if len(s.Unguarded) > 0 {
+		res.Fail("unguarded-shared-state", "a task touched state documented as guarded by a mutex while nobody held that mutex: %v", s.Unguarded)
+		return
+	}
 	for i := range errs {
 		if panics[i] != "" {
 			res.Fail("panic-instead-of-error", "call %d of %d in flight when the context was cancelled panicked: %s", i, ncalls, panics[i])
